@@ -27,7 +27,89 @@ def gen(ctx, n, bounce_share=0.3):
     return out
 
 
+SYS_CFG = """SPECIFICATION Spec
+CONSTANTS
+ OutFile = "unused"
+ Family = "all"
+ Roles = {"initPush"}
+ Statuses = {"Requested"}
+ Dir = "%s"
+ NBlocks = %d
+ LimitsId = "%s"
+ ReqFin = %s
+ MaxPauses = %d
+ MaxLen = %d
+ DumpAtEnd = %s
+%s
+"""
+
+
+def sys_model(ctx):
+    """exhaustive two-node model (Sys.tla): C01_Delivered / C03_OnlyBoth over all interleavings of message deliveries, graphsync steps, app pauses and re-validations"""
+    combos = [("push", "l2_4", "TRUE"), ("pull", "l2_4", "FALSE")] if ctx.quick() else [(d, l, f) for d in ("push", "pull") for l in ("none", "l2", "l2_4") for f in ("FALSE", "TRUE")]
+    for d, l, f in combos:
+        cfg = stages.write_cfg(ctx, "sys-%s-%s-%s.cfg" % (d, l, f), SYS_CFG % (d, 4, l, f, 1, 60, "FALSE", "INVARIANTS C01_Delivered C03_OnlyBoth\nVIEW View\nCONSTRAINT Constr"))
+        res = ctx.tlc("Sys", cfg, timeout=1500, heap="8g")
+        if res.violated:
+            raise vlib.Inconclusive("Sys model violates %s (%s %s %s): model-level counterexample, not a verdict\n%s" % (res.violated, d, l, f, res.out[-1500:]))
+        vlib.tlc_must_pass(res, "Sys %s %s %s" % (d, l, f))
+        ctx.add_model(res)
+
+
+def sys_replay(ctx):
+    """TLC-simulated behaviours of Sys.tla replayed step by step on two real managers"""
+    cases = []
+    k = 0
+    n_per = 4 if ctx.quick() else 40
+    combos = [(d, l, f) for d in ("push", "pull") for l in ("none", "l2_4") for f in ("FALSE", "TRUE")]
+    if ctx.quick():
+        combos = combos[ctx.seed % 2::2]
+    for d, l, f in combos:
+        cfg = stages.write_cfg(ctx, "sys-sim-%s-%s-%s.cfg" % (d, l, f), SYS_CFG % (d, 4, l, f, 1, 70, "TRUE", ""))
+        res = ctx.tlc("Sys", cfg, workers=1, simulate="num=%d" % n_per, depth=80, seed=ctx.seed * 31 + k, timeout=900, heap="6g")
+        k += 1
+        if res.timeout or "Error:" in res.out:
+            raise vlib.Inconclusive("Sys simulation failed:\n" + res.out[-2000:])
+        got = stages.parse_cases(res.out)
+        for i, c in enumerate(got):
+            c["case"] = "sys-%s-%s-%s-%d" % (d, l, f, i)
+            cases.append(c)
+    if not cases:
+        raise vlib.Inconclusive("Sys simulation produced no behaviours")
+    cp = ctx.path("syscases.ndjson")
+    vlib.write_ndjson(cp, cases)
+    b = ctx.go_bin("mgrx")
+    out = ctx.path("sysobs.ndjson")
+    ctx.must_run_go(b, "TestSys", env={"VERIF_CASES": cp, "VERIF_OUT": out}, timeout=1500)
+    n, verdicts = stages.judge(ctx, out, module="SysJudge")
+    idx = stages.index_obs(out)
+    completed = 0
+    for v in verdicts:
+        c = idx[v["case"]]
+        if v["rule"] == "harness":
+            raise vlib.Inconclusive("harness error in %s" % v["case"])
+        if v["rule"] == "conf":
+            ctx.drift.append({"case": v["case"], "note": "final records of the two real managers differ from Sys.tla", "expA": c["expA"]["status"], "gotA": c["finalA"]["status"], "expB": c["expB"]["status"], "gotB": c["finalB"]["status"]})
+            continue
+        if not v["rule"].startswith("C01."):
+            continue
+        ctx.violation({"rule": v["rule"], "dir": v["op"], "mode": "two-node-replay"}, "%s violated in a Sys.tla behaviour replayed on two real managers (case %s)" % (v["rule"], v["case"]),
+                      detail={"steps": [(s["node"], s["obs"]["stim"]["kind"], s["obs"]["stim"]["msg"]["kind"], s["obs"]["ret"]) for s in c["steps"]], "finalA": c["finalA"], "finalB": c["finalB"]})
+    for c in idx.values():
+        ctx.traces += 1
+        ctx.evaluations += len(c["steps"])
+        if c["finalA"]["status"] == "Completed":
+            completed += 1
+            ctx.distinct.add(("sys", c["dir"], len(c["steps"]), c["finalB"]["status"], c["finalA"]["queued"], c["finalB"]["queued"]))
+    ctx.extra["sys_behaviours_replayed"] = n
+    ctx.extra["sys_behaviours_completed"] = completed
+    for c in list(idx.values())[:1]:
+        ctx.sample({"kind": "two-node replay", "case": c["case"], "steps": [(s["node"], s["obs"]["stim"]["kind"], s["obs"]["stim"]["msg"]["kind"]) for s in c["steps"]][:40], "finalA": c["finalA"]["status"], "finalB": c["finalB"]["status"]})
+
+
 def run(ctx):
+    sys_model(ctx)
+    sys_replay(ctx)
     ctx.rule = ("REAL two-node transfers (two real managers, real graphsync transport, real libp2p adapter over mocknet): scenarios draw direction, payload (random bytes, duplicate blocks), "
                 "default/per-channel stores on either side, validator behaviour (successive data limits with re-validation, finalization), pause/resume by either side at a progress point, "
                 "and process bounce + restart of either side; both subscriber streams, final states and a DAG walk of the receiver's actual block store (at the instant of Completed and at "
